@@ -2,6 +2,7 @@ package props
 
 import (
 	"fmt"
+	"strings"
 
 	"github.com/freeconf/yang/node"
 	"github.com/freeconf/yang/nodeutil"
@@ -27,6 +28,7 @@ var c13OddSchemas = []struct{ Name, Body string; Leaves []string }{
 	{"leafref-cycle-3", `leaf a { type leafref { path "../b"; } } leaf b { type leafref { path "../c"; } } leaf c { type leafref { path "../a"; } }`, []string{"a", "c"}},
 	{"leafref-self", `leaf a { type leafref { path "../a"; } }`, []string{"a"}},
 	{"leafref-in-union-typedef", `leaf tgt { type int32; } typedef tr { type leafref { path "/tgt"; } } typedef tu { type union { type tr; type string; } } leaf a { type tu; }`, []string{"a"}},
+	{"leafref-in-union-typedef-relative", `container c { leaf tgt { type int32; } leaf a { type tu; } } typedef tr { type leafref { path "../tgt"; } } typedef tu { type union { type tr; type string; } }`, []string{"c/a"}},
 	{"leafref-list-cycle", `leaf-list a { type leafref { path "../b"; } } leaf-list b { type leafref { path "../a"; } }`, []string{"a"}},
 	{"leafref-chain", `leaf t { type uint8; } leaf r1 { type leafref { path "../t"; } } leaf r2 { type leafref { path "../r1"; } } leaf r3 { type leafref { path "../r2"; } }`, []string{"r3", "r2"}},
 	{"union-of-unions", `typedef u1 { type union { type int8; type boolean; } } typedef u2 { type union { type u1; type string; } } leaf a { type u2; }`, []string{"a"}},
@@ -51,7 +53,7 @@ func c13OddCases(yield func(c13OddCase) bool) {
 var c13Odd = hx.Register(&hx.Check[c13OddCase]{
 	Name:    "c13-odd-schemas",
 	Journal: true,
-	Rule:    "8 schemas the loader may accept although they are odd (cycles of 2 and 3 leafrefs, a leafref to itself, a leafref typedef inside a union typedef, leafref chains, unions of unions, a leafref to a union) x their leaves x 5 texts x {node.NewValue, Find+SetValue, upsert from JSON}: a value or an error, never a crash or unbounded recursion (enumerated completely; schemas the loader rejects are skipped); every case is non-trivial",
+	Rule:    "9 schemas the loader may accept although they are odd (cycles of 2 and 3 leafrefs, a leafref to itself, a leafref typedef inside a union typedef, leafref chains, unions of unions, a leafref to a union) x their leaves x 5 texts x {node.NewValue, Find+SetValue, upsert from JSON}: a value or an error, never a crash or unbounded recursion (enumerated completely; schemas the loader rejects are skipped); every case is non-trivial",
 	Run: func(c c13OddCase, o *hx.Obs) {
 		o.Class("schema=%s", c.Schema)
 		m, err := parser.LoadModuleFromString(nil, c.Yang)
@@ -61,6 +63,9 @@ var c13Odd = hx.Register(&hx.Check[c13OddCase]{
 		}
 		o.NonTrivial()
 		data := map[string]interface{}{}
+		if i := strings.IndexByte(c.Leaf, '/'); i > 0 {
+			data[c.Leaf[:i]] = map[string]interface{}{} // the container the leaf sits in is there
+		}
 		b := node.NewBrowser(m, nodeutil.ReflectChild(data))
 		o.Guard(c.How, func() {
 			switch c.How {
@@ -81,7 +86,11 @@ var c13Odd = hx.Register(&hx.Check[c13OddCase]{
 					sel.Get()
 				}
 			case "upsert-json":
-				n, jerr := nodeutil.ReadJSON(fmt.Sprintf(`{%q:%q}`, c.Leaf, c.Value))
+				doc := fmt.Sprintf(`{%q:%q}`, c.Leaf, c.Value)
+				if i := strings.IndexByte(c.Leaf, '/'); i > 0 {
+					doc = fmt.Sprintf(`{%q:{%q:%q}}`, c.Leaf[:i], c.Leaf[i+1:], c.Value)
+				}
+				n, jerr := nodeutil.ReadJSON(doc)
 				if jerr == nil {
 					b.Root().UpsertFrom(n)
 					nodeutil.WriteJSON(b.Root())
